@@ -3,8 +3,10 @@ CHECK = {
     "builds": [
         {"mode": "inpkg", "pkg": "runner/ollamarunner",
          "files": ["rs_backend_test.go", "rs_model_test.go", "c14_run_test.go"], "shims": _SHIM},
-        {"mode": "inpkg", "pkg": "runner/common", "files": ["c14_laws_test.go"]},
+        {"mode": "inpkg", "pkg": "runner/common", "files": ["c14_laws_test.go", "c14_fuzz_test.go"]},
         {"mode": "inpkg", "pkg": "runner/llamarunner", "files": ["llr_engine_test.go", "c14_llama_test.go"]},
+        # the pure laws again with fuzz coverage instrumentation (native fuzz target, thorough tier)
+        {"mode": "inpkg", "pkg": "runner/common", "files": ["c14_laws_test.go", "c14_fuzz_test.go"], "fuzz": "FuzzC14StopLaws"},
     ],
     "level": "exploration",
     "engine": "runnersim",
@@ -59,7 +61,9 @@ CHECK = {
                  "thorough": {"cases": 1500000, "shards": 2, "soft_s": 300}},
                 {"name": "TestC14LlamaRunner", "build": 2,
                  "quick": {"cases": 10000, "shards": 4, "soft_s": 30},
-                 "thorough": {"cases": 400000, "shards": 6, "soft_s": 320}}],
+                 "thorough": {"cases": 400000, "shards": 5, "soft_s": 320}},
+                # native coverage-guided fuzzing, thorough tier only (cannot be pinned to VERIF_SEED; the saved input is the reproducible unit)
+                {"name": "FuzzC14StopLaws", "build": 3, "kind": "fuzz", "thorough": {"fuzztime": "90s", "workers": 2, "hard_s": 600}}],
     "floors": {"stop_hit": 0.2, "stop_straddles_pieces": 0.03, "multibyte_straddles_pieces": 0.06, "limit_hit": 0.06, "eos_hit": 0.1,
                "invalid_utf8_script": 0.04, "context_shift": 0.03, "law_cut_inside_character": 0.05, "law_stop_straddles_pieces": 0.015,
                "slow_client": 0.03, "slow_client_runner_blocked_on_full_buffer": 0.015, "slow_client_generation_ended_during_stall": 0.01,
